@@ -59,6 +59,10 @@ struct SimSnapshot {
     sim_secs: i64,
     /// CAs with unsent requests at the end of the prefix.
     open_requests: BTreeSet<String>,
+    /// Seconds the clock jumps at the start of the unit, so that the
+    /// recurring maintenance tasks (snapshots, re-publication, renewal)
+    /// fall due inside it.
+    advance_in_unit: i64,
 }
 
 struct PhaseResult {
@@ -150,6 +154,11 @@ fn recover(r: &mut Runner, op: &Op) {
         hooks::log(format!("recover pump {res}"));
         if r.dead.is_some() { return }
     }
+    // The recurring maintenance (re-publication of due manifests and CRLs,
+    // renewal) retries on its own schedule: let its next round pass.
+    r.world.advance(1200);
+    let res = r.exec_pump();
+    hooks::log(format!("recover maintenance pump {res}"));
 }
 
 /// The observable state with key identifiers, serial numbers, class names,
@@ -263,7 +272,35 @@ pub fn norm_state(r: &Runner) -> Value {
 }
 
 /// Checks right after a cut (and the restart, if it was a crash).
-fn post_cut_checks(r: &mut Runner, what: &str) {
+fn post_cut_checks(
+    r: &mut Runner, what: &str, pre_repo: &Option<(String, u64)>,
+) {
+    // (0) the repository content log did not go back: what publishers
+    // were told was accepted before the unit is still there.
+    if let Some((session, serial)) = pre_repo {
+        let now = hooks::with_faults_suspended(|| {
+            r.world.inst(0).rt().repo_manager().repo_stats().ok()
+                .map(|s| (s.session.to_string(), s.serial))
+        });
+        match now {
+            Some((s, n)) if &s == session && n < *serial => r.violation(
+                "C08", "repository_content_lost",
+                format!(
+                    "{what}: the repository was at RRDP serial {serial} \
+                     before the interrupted work and is at serial {n} after \
+                     the restart: acknowledged publications are gone"
+                )
+            ),
+            Some((s, _)) if &s != session => r.violation(
+                "C08", "repository_session_changed",
+                format!(
+                    "{what}: the RRDP session changed from {session} to {s} \
+                     without a reset"
+                )
+            ),
+            _ => { }
+        }
+    }
     // (1) every entity loads.
     let loads = guarded(|| hooks::with_faults_suspended(|| {
         let rt = r.world.inst(0).rt();
@@ -797,7 +834,12 @@ pub fn run_pair(seed: u64, profile: &CutProfile) -> RunReport {
             open_requests: open_requests.unwrap_or_else(|| {
                 runner.model.cas.values().map(|c| c.name.clone()).collect()
             }),
+            advance_in_unit: 0,
         };
+        let mut snap = snap;
+        if runner.rng.chance(1, 4) {
+            snap.advance_in_unit = 86_400 + runner.rng.below(90_000) as i64;
+        }
         let ops = runner.ops_done.clone();
         let config = format!("{:?}", snap.cfg);
         for inst in runner.world.insts.iter_mut() {
@@ -851,6 +893,9 @@ pub fn run_pair(seed: u64, profile: &CutProfile) -> RunReport {
     }
     let n = twin.counter;
     report.stats.insert("pairs".into(), 1);
+    if snap.advance_in_unit > 0 {
+        report.stats.insert("pairs_with_maintenance_due".into(), 1);
+    }
     report.stats.insert(format!("op.{}", target.kind()), 1);
     report.stats.insert("mutations_in_unit".into(), n);
     report.kv_mutations += twin.kv;
@@ -871,9 +916,31 @@ pub fn run_pair(seed: u64, profile: &CutProfile) -> RunReport {
     // Phase C: the cuts.
     let mut ks: Vec<u64> = (1..=n).collect();
     if ks.len() > profile.max_cuts {
+        // Stratified: first one cut point of every site class that occurs
+        // in the unit (rare kinds of mutation - a snapshot write, a WAL
+        // truncation, a directory rename - would otherwise hardly ever be
+        // drawn next to the many task-queue writes), then a seeded sample
+        // of the rest.
         let mut rng = Rng::new(seed).fork("cuts");
         rng.shuffle(&mut ks);
-        ks.truncate(profile.max_cuts);
+        let mut chosen: Vec<u64> = Vec::new();
+        let mut seen_classes = BTreeSet::new();
+        for k in &ks {
+            let site = twin.sites.get((*k - 1) as usize).cloned()
+                .unwrap_or_default();
+            if seen_classes.insert(classify_site(&site))
+                && chosen.len() < profile.max_cuts
+            {
+                chosen.push(*k);
+            }
+        }
+        for k in &ks {
+            if chosen.len() >= profile.max_cuts { break }
+            if !chosen.contains(k) {
+                chosen.push(*k);
+            }
+        }
+        ks = chosen;
         ks.sort();
     }
     else {
@@ -1233,6 +1300,10 @@ fn run_phase(
             return out
         }
     };
+    let pre_repo = hooks::with_faults_suspended(|| {
+        r.world.inst(0).rt().repo_manager().repo_stats().ok()
+            .map(|s| (s.session.to_string(), s.serial))
+    });
     // C11: the clients know the state before the unit.
     let pre_view = if fs_only {
         let inst = r.world.inst(0);
@@ -1261,6 +1332,9 @@ fn run_phase(
             record: true,
             sites: Vec::new(),
         };
+    }
+    if snap.advance_in_unit > 0 {
+        r.world.advance(snap.advance_in_unit);
     }
     out.result_of_op = exec_unit(&mut r, target);
     // Disarm and collect.
@@ -1379,7 +1453,7 @@ fn run_phase(
         return out
     }
     if !matches!(mode, FaultMode::None) && out.fired_at.is_some() {
-        post_cut_checks(&mut r, &what);
+        post_cut_checks(&mut r, &what, &pre_repo);
     }
     recover(&mut r, target);
     if r.dead.is_some() {
